@@ -1033,3 +1033,209 @@ Example current_witness_b_page :
   snd (do_read false (run false init_st legacy_witness_b) IUpdated true 0%N 0%N (Some 15) (Some 81))
   = Some [[98]; [99]; [97]].
 Proof. vm_compute. reflexivity. Qed.
+
+(* ---- E. the oracle valid_page decides is_spec_page ------------------------------------------- *)
+Lemma nodupb_iff l : nodupb l = true <-> NoDup l.
+Proof.
+  induction l as [|x t IH]; simpl; [split; auto; constructor|].
+  rewrite andb_true_iff, negb_true_iff, IH. split.
+  - intros [H1 H2]. constructor; auto. intros H. apply existsb_skey in H. congruence.
+  - intros H. inversion H; subst. split; auto. destruct (existsb (skey_eqb x) t) eqn:E; auto.
+    apply existsb_skey in E. contradiction.
+Qed.
+
+Lemma skeys_eqb_eq (a b : list skey) : list_eqb skey_eqb a b = true <-> a = b.
+Proof. apply list_eqb_eq. intros x y. apply skey_eqb_eq. Qed.
+
+Lemma nodup_keys_filter p rs : NoDup (map r_key rs) -> NoDup (map r_key (filter p rs)).
+Proof. induction rs as [|x t IH]; simpl; intros N; auto. inversion N; subst.
+  destruct (p x); simpl; auto. constructor; auto. intros H. apply H1.
+  apply in_map_iff in H. destruct H as [r [E Hr]]. apply filter_In in Hr. rewrite <- E. apply in_map. tauto. Qed.
+
+Lemma lookup_all_spec W page P : lookup_all W page = Some P -> map r_key P = page /\ (forall r, In r P -> In r W).
+Proof.
+  revert P. induction page as [|k t IH]; simpl; intros P H.
+  - inversion H; subst. split; auto. intros r [].
+  - destruct (find_rec k W) as [r|] eqn:F; [|discriminate]. destruct (lookup_all W t) as [l|]; [|discriminate].
+    inversion H; subst. destruct (IH l eq_refl) as [A B]. destruct (find_rec_key _ _ _ F) as [C D].
+    split; simpl; [congruence|]. intros x [<-|Hx]; auto.
+Qed.
+Lemma lookup_all_complete W Q : NoDup (map r_key W) -> (forall r, In r Q -> In r W) -> lookup_all W (map r_key Q) = Some Q.
+Proof.
+  intros N. induction Q as [|r t IH]; simpl; intros H; auto.
+  rewrite (find_rec_in W r N) by auto. rewrite IH by auto. reflexivity.
+Qed.
+
+Lemma in_firstn {X} n (l : list X) x : In x (firstn n l) -> In x l.
+Proof. intros H. rewrite <- (firstn_skipn n l). apply in_or_app. auto. Qed.
+Lemma in_skipn {X} n (l : list X) x : In x (skipn n l) -> In x l.
+Proof. intros H. rewrite <- (firstn_skipn n l). apply in_or_app. auto. Qed.
+Lemma page_of_incl {X} from lim (l : list X) x : In x (page_of from lim l) -> In x l.
+Proof. unfold page_of. destruct lim; intros H; [|apply in_firstn in H]; eapply in_skipn; eauto. Qed.
+
+Lemma nodup_app_l {X} (a b : list X) : NoDup (a ++ b) -> NoDup a.
+Proof. induction a as [|x t IH]; simpl; intros H; [constructor|]. inversion H; subst. constructor; auto.
+  intros Hx. apply H2. apply in_or_app. auto. Qed.
+Lemma nodup_app_r {X} (a b : list X) : NoDup (a ++ b) -> NoDup b.
+Proof. induction a as [|x t IH]; simpl; intros H; auto. inversion H; auto. Qed.
+Lemma nodup_page_of {X} from lim (l : list X) : NoDup l -> NoDup (page_of from lim l).
+Proof. intros N. assert (NS : NoDup (skipn from l)) by (rewrite <- (firstn_skipn from l) in N; eapply nodup_app_r; eauto).
+  unfold page_of. destruct lim; auto. rewrite <- (firstn_skipn (S lim) (skipn from l)) in NS. eapply nodup_app_l; eauto. Qed.
+
+(* the attribute list of the wanted records in index order is unique *)
+Lemma sorted_attrs_unique asc (g : rec -> skey) L W :
+  Permutation L W -> Sorted (fun r1 r2 => ord_leb asc (g r1) (g r2) = true) L ->
+  map g L = isort (ord_leb asc) (map g W).
+Proof.
+  intros P S. apply (sorted_perm_unique asc).
+  - apply Sorted_map. exact S.
+  - apply (isort_sorted (ord_leb asc)). intros a b. apply ord_leb_total.
+  - eapply perm_trans; [apply Permutation_map; exact P | apply Permutation_sym, isort_perm].
+Qed.
+
+Lemma valid_page_complete rs i asc from lim ft tu page :
+  NoDup (map r_key rs) -> is_spec_page rs i asc from lim ft tu page ->
+  valid_page rs i asc from lim ft tu page = true.
+Proof.
+  intros N [L [P [S E]]]. unfold valid_page.
+  set (W := wanted rs i ft tu) in *. set (f := fam_of i) in *.
+  assert (NW : NoDup (map r_key W)) by (apply nodup_keys_filter; exact N).
+  assert (Inc : forall r, In r (page_of (N.to_nat from) (N.to_nat lim) L) -> In r W).
+  { intros r Hr. eapply Permutation_in; [exact P|]. eapply page_of_incl; eauto. }
+  rewrite E, (lookup_all_complete W _ NW Inc). apply andb_true_iff. split.
+  - apply nodupb_iff. rewrite <- page_of_map. apply nodup_page_of.
+    eapply Permutation_NoDup; [apply Permutation_sym, Permutation_map; exact P | exact NW].
+  - apply skeys_eqb_eq. rewrite <- page_of_map. f_equal. apply sorted_attrs_unique; auto.
+Qed.
+
+(* -- soundness: a page accepted by the oracle is a spec page for a suitable order of the ties -- *)
+Lemma ssorted_app_r {X} (R : X -> X -> Prop) (y z : list X) : StronglySorted R (y ++ z) -> StronglySorted R z.
+Proof. induction y as [|a t IH]; simpl; auto. intros H. inversion H; auto. Qed.
+Lemma ssorted_drop_mid {X} (R : X -> X -> Prop) (x y z : list X) :
+  StronglySorted R (x ++ y ++ z) -> StronglySorted R (x ++ z).
+Proof.
+  induction x as [|a t IH]; simpl; intros H; [eapply ssorted_app_r; eauto|].
+  inversion H as [|? ? S F]; subst. constructor; auto.
+  rewrite Forall_forall in *. intros b Hb. apply F. apply in_app_or in Hb. apply in_or_app.
+  destruct Hb; auto. right. apply in_or_app. auto.
+Qed.
+
+Lemma firstn_self {X} m (Y : list X) : firstn (length (firstn m Y)) Y = firstn m Y.
+Proof. rewrite firstn_length. destruct (Nat.le_ge_cases m (length Y)) as [H|H].
+  - rewrite Nat.min_l; auto. - rewrite Nat.min_r; auto. rewrite !firstn_all2; auto; lia. Qed.
+
+Lemma page_of_as_firstn {X} from lim (l : list X) :
+  page_of from lim l = firstn (length (page_of from lim l)) (skipn from l) /\
+  (lim = 0%nat \/ (length (page_of from lim l) < lim)%nat -> skipn (length (page_of from lim l)) (skipn from l) = []).
+Proof.
+  unfold page_of. destruct lim as [|lim].
+  - split; [rewrite firstn_all; auto | intros _; apply skipn_all].
+  - split; [symmetry; apply firstn_self|]. intros [H|H]; [discriminate|].
+    rewrite firstn_length in H. apply skipn_all2. rewrite firstn_length. lia.
+Qed.
+
+Lemma valid_page_sound rs i asc from lim ft tu page :
+  NoDup (map r_key rs) -> valid_page rs i asc from lim ft tu page = true ->
+  is_spec_page rs i asc from lim ft tu page.
+Proof.
+  intros N. unfold valid_page, is_spec_page.
+  set (W := wanted rs i ft tu). set (f := fam_of i). set (g := raw_attr f).
+  set (fr := N.to_nat from). set (lm := N.to_nat lim).
+  set (cmp := fun r1 r2 : rec => ord_leb asc (g r1) (g r2)).
+  assert (cmp_total : forall a b, cmp a b = false -> cmp b a = true) by (intros a b; apply ord_leb_total).
+  assert (NW : NoDup (map r_key W)) by (apply nodup_keys_filter; exact N).
+  assert (NWr : NoDup W) by (apply (NoDup_map_inv r_key); exact NW).
+  destruct (lookup_all W page) as [P|] eqn:LA; [|discriminate].
+  intros H. apply andb_true_iff in H. destruct H as [ND EQ].
+  apply nodupb_iff in ND. apply skeys_eqb_eq in EQ.
+  destruct (lookup_all_spec _ _ _ LA) as [KP PW].
+  set (aS := isort (ord_leb asc) (map g W)) in *.
+  assert (SaS : Sorted (ordR asc) aS) by (apply (isort_sorted (ord_leb asc)); intros a b; apply ord_leb_total).
+  assert (Pcase : P = [] \/ P <> []) by (destruct P; [left; reflexivity | right; discriminate]).
+  destruct Pcase as [Pe|Pne].
+  { (* empty page *)
+    subst P.
+    exists (isort cmp W). split; [apply isort_perm | split].
+    - apply (isort_sorted cmp cmp_total).
+    - simpl in KP. subst page. symmetry.
+      assert (M : map g (page_of fr lm (isort cmp W)) = []).
+      { rewrite <- page_of_map. rewrite (sorted_attrs_unique asc g (isort cmp W) W).
+        - symmetry. exact EQ. - apply isort_perm. - apply (isort_sorted cmp cmp_total). }
+      apply map_eq_nil in M. rewrite M. reflexivity. }
+  assert (NP : NoDup P) by (apply (NoDup_map_inv r_key); rewrite KP; exact ND).
+  set (n := length P).
+  (* the rest of the wanted records *)
+  set (Rm := filter (fun r => negb (existsb (skey_eqb (r_key r)) page)) W).
+  assert (PermW : Permutation W (P ++ Rm)).
+  { apply NoDup_Permutation; auto.
+    - apply NoDup_app_iff || idtac. 
+      assert (Dis : forall r, In r P -> ~ In r Rm).
+      { intros r Hr Hm. apply filter_In in Hm. destruct Hm as [_ Hm]. apply negb_true_iff in Hm.
+        assert (existsb (skey_eqb (r_key r)) page = true).
+        { apply existsb_skey. rewrite <- KP. apply in_map. exact Hr. }
+        congruence. }
+      assert (NR : NoDup Rm) by (apply NoDup_filter; exact NWr).
+      clear -NP NR Dis. induction P as [|x t IH]; simpl; auto. inversion NP; subst. constructor.
+      + intros Hx. apply in_app_or in Hx. destruct Hx as [Hx|Hx]; auto. apply (Dis x); simpl; auto.
+      + apply IH; auto. intros r Hr. apply Dis. simpl; auto.
+    - intros r. rewrite in_app_iff. split.
+      + intros Hr. destruct (existsb (skey_eqb (r_key r)) page) eqn:E.
+        * left. apply existsb_skey in E. rewrite <- KP in E. apply in_map_iff in E. destruct E as [r' [Ek Hr']].
+          assert (r' = r); [|subst; auto].
+          pose proof (find_rec_in W r' NW (PW r' Hr')) as F1. pose proof (find_rec_in W r NW Hr) as F2.
+          rewrite Ek in F1. congruence.
+        * right. apply filter_In. rewrite E. auto.
+      + intros [Hr|Hr]; [auto | apply filter_In in Hr; tauto]. }
+  set (R := isort cmp Rm).
+  assert (PermR : Permutation R Rm) by apply isort_perm.
+  assert (SR : Sorted (fun r1 r2 => cmp r1 r2 = true) R) by apply (isort_sorted cmp cmp_total).
+  (* the attribute lists *)
+  destruct (page_of_as_firstn fr lm aS) as [Seg Tail]. rewrite <- EQ in Seg, Tail. rewrite map_length in Seg, Tail. fold n in Seg, Tail.
+  set (A := firstn fr aS). set (B := skipn n (skipn fr aS)).
+  assert (Split : aS = A ++ map g P ++ B).
+  { unfold A, B. rewrite Seg at 1. rewrite firstn_skipn, firstn_skipn. reflexivity. }
+  assert (LA' : length A = fr).
+  { unfold A. rewrite firstn_length. apply Nat.min_l.
+    destruct (Nat.le_gt_cases fr (length aS)) as [Hle|Hgt]; auto.
+    exfalso. apply Pne. apply (map_eq_nil g). rewrite Seg. rewrite skipn_all2 by lia. apply firstn_nil. }
+  assert (MR : map g R = A ++ B).
+  { apply (sorted_perm_unique asc).
+    - apply Sorted_map. exact SR.
+    - apply StronglySorted_Sorted. apply (ssorted_drop_mid _ A (map g P) B). rewrite <- Split.
+      apply Sorted_StronglySorted; auto. intros x y z. apply ord_leb_trans.
+    - apply (Permutation_app_inv_m (map g P) [] (map g R) A B). simpl. rewrite <- Split.
+      eapply perm_trans; [|apply Permutation_sym, isort_perm].
+      rewrite <- map_app. apply Permutation_map.
+      eapply perm_trans; [apply Permutation_app_head, PermR | apply Permutation_sym, PermW]. }
+  assert (LR : (fr <= length R)%nat).
+  { rewrite <- (map_length g R), MR, app_length. lia. }
+  assert (F1 : map g (firstn fr R) = A).
+  { rewrite <- firstn_map, MR. rewrite firstn_app, LA', Nat.sub_diag, firstn_all2 by lia. simpl. apply app_nil_r. }
+  assert (F2 : map g (skipn fr R) = B).
+  { rewrite <- skipn_map, MR. rewrite skipn_app, LA', Nat.sub_diag, skipn_all2 by lia. reflexivity. }
+  exists (firstn fr R ++ P ++ skipn fr R). split; [|split].
+  - eapply perm_trans; [|apply Permutation_sym; exact PermW].
+    eapply perm_trans; [apply Permutation_app_swap_app|]. apply Permutation_app_head.
+    rewrite firstn_skipn. exact PermR.
+  - apply (Sorted_map_inv g (ordR asc)). rewrite !map_app, F1, F2, <- Split. exact SaS.
+  - rewrite <- KP. f_equal.
+    assert (SK : skipn fr (firstn fr R ++ P ++ skipn fr R) = P ++ skipn fr R).
+    { rewrite skipn_app, firstn_length, Nat.min_l by lia. rewrite skipn_all2 by (rewrite firstn_length; lia).
+      rewrite Nat.sub_diag. reflexivity. }
+    unfold page_of. rewrite SK. fold lm.
+    assert (Bnil : lm = 0%nat \/ (n < lm)%nat -> skipn fr R = []).
+    { intros C. apply (map_eq_nil g). rewrite F2. unfold B. apply Tail. exact C. }
+    destruct lm as [|lm'] eqn:ELM.
+    + rewrite Bnil by auto. symmetry. apply app_nil_r.
+    + assert (n <= S lm')%nat.
+      { unfold n. rewrite <- (map_length g P), EQ. unfold page_of. try (fold lm; rewrite ELM). rewrite firstn_length. lia. }
+      destruct (Nat.eq_dec n (S lm')) as [En|Nn].
+      * rewrite firstn_app. fold n. rewrite <- En. unfold n. rewrite Nat.sub_diag, firstn_all. simpl. symmetry. apply app_nil_r.
+      * rewrite Bnil by lia. rewrite app_nil_r. symmetry. apply firstn_all2. fold n. lia.
+Qed.
+
+(* The oracle used by the correspondence check accepts exactly the spec pages. *)
+Theorem valid_page_iff rs i asc from lim ft tu page :
+  NoDup (map r_key rs) ->
+  (valid_page rs i asc from lim ft tu page = true <-> is_spec_page rs i asc from lim ft tu page).
+Proof. intros N. split; [apply valid_page_sound | apply valid_page_complete]; auto. Qed.
